@@ -126,3 +126,65 @@ Proof.
   apply andb_true_iff in H. destruct H as [H H3]. apply andb_true_iff in H. destruct H as [H1 H2].
   repeat split; [apply nodupb_NoDup, H1 | apply nodupb_NoDup, H2 | exact H3].
 Qed.
+
+(* ------------------------------------------------------------------ the local propagation step *)
+Definition rev_e (e : edge) : edge := (snd e, fst e).
+
+Lemma eset_acc l : forall acc e, In e (fold_left (fun acc e => if emem e acc then acc else acc ++ [e]) l acc) <-> In e acc \/ In e l.
+Proof.
+  induction l as [| x l IH]; intros acc e; simpl; [tauto |].
+  rewrite IH. destruct (emem x acc) eqn:E.
+  - apply emem_In in E. split; [intros [H | H]; auto | intros [H | [<- | H]]; auto].
+  - rewrite in_app_iff. simpl. tauto.
+Qed.
+
+Lemma In_eset l e : In e (eset l) <-> In e l.
+Proof. unfold eset. rewrite eset_acc. simpl. tauto. Qed.
+
+Lemma einter_spec s t : einter s t = true <-> exists e, In e t /\ In e s.
+Proof.
+  unfold einter. rewrite existsb_exists. split; intros [e [H1 H2]]; exists e; split; auto; apply emem_In; exact H2.
+Qed.
+
+Lemma rev_in_r tri e : In e (edges_of tri) <-> In (rev_e e) (edges_r_of tri).
+Proof.
+  destruct tri as [[a b] c], e as [x y]. unfold edges_of, edges_r_of, rev_e, f0, f1, f2. simpl.
+  split; intros [H | [H | [H | []]]]; inversion H; subst; auto.
+Qed.
+
+Lemma rev_rev e : rev_e (rev_e e) = e.
+Proof. destruct e. reflexivity. Qed.
+
+Lemma edges_flip tri e : In e (edges_of (flip_face tri)) <-> In e (edges_r_of tri).
+Proof.
+  destruct tri as [[a b] c]. unfold edges_of, edges_r_of, flip_face, f0, f1, f2. simpl. tauto.
+Qed.
+
+(* when a face is attached to the processed region (free_edges non-empty): the edge set xor-ed into free_edges is
+   the set of directed edges of the face AS IT WILL BE WOUND (reversed iff `flip`), and that winding traverses
+   some free edge in the opposite direction; a face that is skipped has no edge in common with free_edges in
+   either direction *)
+Lemma try_tri_local free tri : free <> [] ->
+  match try_tri free tri with
+  | Some (fl, es) =>
+      let t' := if fl then flip_face tri else tri in
+      (forall e, In e es <-> In e (edges_of t')) /\ (exists e, In e free /\ In (rev_e e) (edges_of t'))
+  | None => forall e, In e free -> ~ In e (edges_of tri) /\ ~ In (rev_e e) (edges_of tri)
+  end.
+Proof.
+  intros Hne. unfold try_tri. destruct free as [| e0 free']; [congruence |]. set (free := e0 :: free') in *.
+  destruct (einter free (eset (edges_of tri))) eqn:E1.
+  - apply einter_spec in E1. destruct E1 as [e [He Hf]]. rewrite In_eset in He. split.
+    + intros x. rewrite In_eset. symmetry. apply edges_flip.
+    + exists e. split; [exact Hf |]. apply edges_flip. apply rev_in_r. exact He.
+  - destruct (einter free (eset (edges_r_of tri))) eqn:E2.
+    + apply einter_spec in E2. destruct E2 as [e [He Hf]]. rewrite In_eset in He. split.
+      * intros x. apply In_eset.
+      * exists e. split; [exact Hf |]. apply rev_in_r. rewrite rev_rev. exact He.
+    + intros e He. split; intros Hin.
+      * assert (einter free (eset (edges_of tri)) = true); [| congruence].
+        apply einter_spec. exists e. split; [apply In_eset, Hin | exact He].
+      * assert (einter free (eset (edges_r_of tri)) = true); [| congruence].
+        apply einter_spec. exists e. split; [| exact He]. apply In_eset.
+        apply rev_in_r in Hin. rewrite rev_rev in Hin. exact Hin.
+Qed.
